@@ -9,6 +9,7 @@ import (
 	"path/filepath"
 	"strconv"
 	"strings"
+	"time"
 
 	"verif/harness/cs"
 	"verif/harness/model"
@@ -46,12 +47,12 @@ type Session struct {
 	Backend  string
 	H        *run.Handle
 	M        *model.DB
-	Prev     *model.DB   // model state before the current step (for hooks)
-	Resynced bool        // the current step's effect was read back from the database
-	Last     *cs.Outcome // outcome of the last operation
+	Prev     *model.DB           // model state before the current step (for hooks)
+	Resynced bool                // the current step's effect was read back from the database
+	Last     *cs.Outcome         // outcome of the last operation
 	Exports  map[string][]cs.Doc // resolved export path -> documents of the source at export time
 	OnClose  []func()
-	Ops      []cs.Op     // as drawn (symbolic ids)
+	Ops      []cs.Op // as drawn (symbolic ids)
 	Hooks    []Hook
 	// id bookkeeping for clover-generated ids
 	assigned map[[2]int]string
@@ -81,9 +82,13 @@ func (s *Session) Close() {
 	}
 	s.OnClose = nil
 	if s.H != nil {
+		// a wedged store (e.g. a leaked write transaction) would block Close forever
 		done := make(chan struct{})
 		go func() { s.H.Close(); close(done) }()
-		<-done
+		select {
+		case <-done:
+		case <-time.After(5 * time.Second):
+		}
 		if s.ownDir {
 			os.RemoveAll(s.H.Dir)
 			os.RemoveAll(s.H.Dir + ".files")
@@ -122,6 +127,16 @@ func (s *Session) SymDocId(id string) interface{} {
 
 // GenId is the id function used by geninsert batches.
 func GenId(i int) string { return fmt.Sprintf("%08x-0000-4000-8000-%012x", i, i) }
+
+// Materialize turns a parameterised batch into a plain insert (other operations unchanged).
+func Materialize(op cs.Op) cs.Op {
+	if op.Kind == "geninsert" {
+		op.Kind = "insert"
+		op.Docs = op.Gen.Docs(GenId)
+		op.Gen = nil
+	}
+	return op
+}
 
 func (s *Session) resolve(op *cs.Op) *cs.Op {
 	r := *op
